@@ -159,6 +159,9 @@ class FakeProcess:
         self.log.add("kill", self.pid)
 
     def start(self):
+        if getattr(self, "start_fails", False):
+            self.log.add("start-failed", self.pid)
+            raise OSError(11, "Resource temporarily unavailable")  # fork: EAGAIN
         self.started = True
         self.alive = True
         self.log.add("start", self.pid)
@@ -206,6 +209,7 @@ class FakeCtx:
             raise TypeError("unexpected keyword env")
         p = FakeProcess(self.log, self.next_pid)
         self.next_pid += 1
+        p.start_fails = (len(self.created) == getattr(self, "fail_start_at", -1))
         p.target, p.args, p.kw = target, args, kw
         p.lock_held_at_creation = None if self.mgmt_lock is None else self.mgmt_lock.held
         self.created.append(p)
